@@ -452,7 +452,7 @@ class Analysis:
             if self.track is not None and not self.track(n):
                 return None
             t = self._ty(e.ty)
-            if t.get("kind") == "ptr" and (self._ty(t.get("pointee", "")).get("size") or 0) != 1:
+            if t.get("kind") == "ptr" and (self._ty(t.get("pointee", "")).get("size") or 0) != 1 and not getattr(self, "any_ptr", False):
                 # only byte pointers take part in arithmetic here; carrying equalities between other pointers costs much and proves nothing
                 return None
             if t.get("kind") not in INT_KINDS and t.get("kind") != "ptr":
@@ -919,6 +919,18 @@ class Analysis:
                             nxt.append(cs)
                     alts = nxt
                     continue
+                if op in ("<", ">") and Le is not None and Re is not None:
+                    # two pointers to elements of one array (the only pointers C lets one order) differ by a multiple of the element
+                    # size: p < q is p + size <= q
+                    ta, tb = self._ty(Le.ty), self._ty(Re.ty)
+                    if ta.get("kind") == "ptr" and tb.get("kind") == "ptr":
+                        sa_, sb_ = self._ty(ta.get("pointee", "")).get("size"), self._ty(tb.get("pointee", "")).get("size")
+                        if sa_ and sa_ == sb_ and sa_ > 1:
+                            if op == "<":
+                                alts = [cs + cons("<=", a + Lin.const(sa_), b) for cs in alts]
+                            else:
+                                alts = [cs + cons(">=", a, b + Lin.const(sa_)) for cs in alts]
+                            continue
                 alts = [cs + cons(op, a, b) for cs in alts]
         elif isinstance(kind, tuple) and kind[0] == "case":
             a = self.lin(cond, st)
